@@ -379,6 +379,7 @@ func (g *vfGen) genC03() {
 		g.emit(vfOp("xwalk", sc, in, []uint32{0, 3072, 64}[g.rng.Intn(3)]))
 	}
 	g.genResExt()
+	g.genLimFlip()
 }
 
 func (g *vfGen) genC14() {
